@@ -96,6 +96,31 @@ def _run_driver(lines, timeout):
         outs.pop()
     return p.returncode, outs, p.stderr
 
+_DEAD = re.compile(r"^d\d+$")
+
+def static_counts(prog):
+    """counts of generator shapes that no evaluator rule witnesses: stores to / effectful initialisers of
+    the never-captured dead-store locals d<N>, unused effectful calls in statement position are counted
+    with them; `try` whose handler (or missing catch-all) throws; `try` with `finally`"""
+    c = {"deadstore": 0, "handler-throws": 0, "finally": 0}
+    def has_throw(x):
+        if isinstance(x, list):
+            if x and x[0] == "throw": return True
+            return any(has_throw(y) for y in x)
+        return False
+    def walk(x):
+        if not isinstance(x, list) or not x: return
+        t = x[0]
+        if t in ("assign", "decl") and len(x) >= 3 and isinstance(x[1], str) and _DEAD.match(x[1]):
+            c["deadstore"] += 1
+        if t == "try" and len(x) == 6:
+            if x[4] == ["none"] or has_throw(x[3]) or has_throw(x[4]): c["handler-throws"] += 1
+            if x[5] != ["none"]: c["finally"] += 1
+        for y in x:
+            walk(y)
+    walk(prog)
+    return c
+
 def features_of(prog):
     """static features: the set of tags (and operators, literal kinds) occurring in the tree"""
     feats = set()
@@ -112,6 +137,10 @@ def features_of(prog):
     fns = [t[1] for t in prog[1:] if t[0] == "fn"]
     if len(fns) != len(set(fns)):
         feats.add("overload")
+    st = static_counts(prog)
+    if st["deadstore"]: feats.add("deadstore")
+    if st["handler-throws"]: feats.add("handler-throws")
+    if st["finally"]: feats.add("finally")
     for t in prog[1:]:
         if t[0] == "cat" and t[3]:
             feats.add("default")
@@ -284,9 +313,10 @@ def agrees(m, run):
 # --------------------------------------------------------------------------------------
 
 ALL_FEATURES = ("mi", "int", "bool", "str", "list", "arr", "rec", "uni", "closure", "gen", "loop",
-                "exit", "return", "exn", "overload", "macro", "dom", "default")
+                "exit", "return", "exn", "overload", "macro", "dom", "default", "deadstore")
 OPTIONAL_FEATURES = ("error", "toplevel-exnval", "uncaught", "file-scope-nesting", "int-dom-param",
-                     "risky-tests", "nested-try", "rich-throw-arg", "singleton-bracket", "seq-in-and", "nested-exnval", "return-in-try")
+                     "risky-tests", "nested-try", "rich-throw-arg", "singleton-bracket", "seq-in-and", "nested-exnval", "return-in-try", "dcall-var-in-try",
+                     "loopvar-test-try")
 
 MI_POOL = [0, 1, -1, 2, 3, 5, 7, 10, 16, 100, 255, 1000, 65535, 2**31 - 1, 2**31, -2**31, 2**32, 2**32 + 1,
            2**62, 2**63 - 1, -2**63, -2**63 + 1, 2**63 - 2, -(2**62), 3037000500, 4294967296 * 3 + 1]
@@ -321,10 +351,11 @@ class Var:
         self.loopvar = loopvar
 
 class Fn:
-    __slots__ = ("name", "args", "res", "level", "throws", "bounded", "recursive")
+    __slots__ = ("name", "args", "res", "level", "throws", "bounded", "recursive", "effectful")
     def __init__(self, name, args, res):
         self.name, self.args, self.res = name, args, res
         self.level = 0; self.throws = False; self.bounded = False; self.recursive = False
+        self.effectful = False
 
 class Frame:
     """one function / closure / method body under construction"""
@@ -434,9 +465,27 @@ class Gen:
             return False
         return any(walk(e) for e in es)
 
+    def mentions_loopvar(self, c):
+        lv = {v.name for v in self.vars if v.loopvar}
+        def walk(x):
+            if isinstance(x, list):
+                if len(x) == 2 and x[0] == "var" and x[1] in lv: return True
+                return any(walk(y) for y in x)
+            return False
+        return bool(lv) and walk(c)
+
+    def has_tag(self, tag, *es):
+        def walk(x):
+            if isinstance(x, list):
+                if x and x[0] == tag: return True
+                return any(walk(y) for y in x)
+            return False
+        return any(walk(e) for e in es)
+
     def guard(self, c, lvl, *guarded):
         """(prefix statements, test) for a test `c` guarding the expressions `guarded`"""
-        if self.on("risky-tests") or self.simple_test(c):
+        risky_lv = (not self.on("loopvar-test-try")) and self.mentions_loopvar(c) and self.has_tag("try", *guarded)
+        if (self.on("risky-tests") or self.simple_test(c)) and not risky_lv:
             return [], c
         fr = self.frame()
         if lvl == 2 and fr.in_gen is None and fr.kind != "macro":
@@ -687,11 +736,15 @@ class Gen:
             return ["bin", self.r.choice(["eq", "ne"]), a, b]
         if r < 0.72:
             a = self.expr("bool", d - 1, lvl); b = self.expr("bool", d - 1, lvl)
+            op = self.r.choice(["and", "or"])
             if not self.on("seq-in-and"):
-                # `x and (c => a; b)` crashes the compiler (finding): no sequences as operands
-                if a[0] in ("seq", "mcall"): a = self.leaf("bool", lvl)
-                if b[0] in ("seq", "mcall"): b = self.leaf("bool", lvl)
-            return ["bin", self.r.choice(["and", "or"]), a, b]
+                # findings: `x and (c => a; b)` and `(if c then (x and y) else z) and w` crash the compiler:
+                # no conditional or sequence operands of `and`/`or`, and no `and` in macro bodies (an argument
+                # may be such an expression)
+                if a[0] in ("seq", "mcall", "if", "try"): a = self.leaf("bool", lvl)
+                if b[0] in ("seq", "mcall", "if", "try"): b = self.leaf("bool", lvl)
+                if self.frame().kind == "macro": op = "or"
+            return ["bin", op, a, b]
         if r < 0.80:
             return ["un", "not", self.expr("bool", d - 1, lvl)]
         if r < 0.86 and self.on("list"):
@@ -807,6 +860,8 @@ class Gen:
         sigs, doms, m, args, res, mlevel = self.r.choice(cands)
         dn, pty = self.r.choice(doms)
         cs = [v for v in self.vars if not v.mut and not v.loopvar and v.ty == pty]
+        if (self.in_try or self.in_handler) and not self.on("dcall-var-in-try"):
+            cs = []       # finding: `m()$Dom(x)` with a variable argument inside `try` is miscompiled
         darg = ["var", self.r.choice(cs).name] if cs and self.chance(0.4) else (mi(self.r.randint(-3, 9)) if pty == "mi" else ["int", self.r.choice([0, 1, 2, 5, 10**20, -3])])
         self.use(mlevel)
         return ["dcall", dn, darg, m, res, self.args_for(args, d - 1, lvl if mlevel < 2 else 0)]
@@ -1133,6 +1188,9 @@ class Gen:
         for _ in range(self.r.randint(0, 1 + self.size)):
             s = self.stmt(d, top=True)
             if s is not None: stmts.append(s)
+        if self.on("deadstore") and fr.kind == "fn" and self.chance(0.2):
+            pos = self.r.randint(0, len(stmts))
+            stmts[pos:pos] = self.deadstore_shape()
         if res == "unit":
             final = self.print_stmt(1)
         else:
@@ -1365,6 +1423,160 @@ class Gen:
             if res in SCALARS and self.chance(0.8):
                 self.tops.append(["stmt", ["print", [["mcall", m, [self.expr(t, 1, 0) for t in pts]], ["nl"]]]])
 
+    # ---- dead stores with side effects (feature "deadstore").  Locals named d<N> are never captured by
+    # a closure: they are taken out of scope as soon as the shape has been emitted.
+    def effect_fun(self, ty):
+        """a function of result type `ty` whose call prints and/or assigns a global (never throws)"""
+        fs = [f for f in self.fns if getattr(f, "effectful", False) and f.res == ty]
+        if fs and self.chance(0.7):
+            return self.r.choice(fs)
+        name = self.fresh("f")
+        a = self.r.choice(self.scalar_types())
+        x = self.fresh("x")
+        gs = [v for v in self.vars if v.depth == 0 and v.mut and v.ty in ("mi", "int", "str") and not v.protected]
+        body = []; frees = []
+        kind = self.r.choice(["print", "mutate", "both"]) if gs else "print"
+        if kind in ("print", "both"):
+            body.append(["print", [["strlit", name + ":"], ["var", x], ["nl"]]])
+        if kind in ("mutate", "both"):
+            g = self.r.choice(gs); frees.append(g.name)
+            rhs = {"mi": ["bin", "add", ["var", g.name], mi(1)], "int": ["bin", "add", ["var", g.name], ["int", 1]],
+                   "str": ["bin", "concat", ["var", g.name], ["strlit", "+"]]}[g.ty]
+            body.append(["assign", g.name, rhs])
+        saved = self.vars
+        self.vars = [v for v in self.vars if not v.mut and v.depth == 0] + [Var(x, a, False, 1)]
+        fr = Frame(1, ret=ty); self.frames.append(fr)
+        saved_hv, self.handler_vars = self.handler_vars, []
+        body.append(self.expr(ty, 1, 0))
+        self.handler_vars = saved_hv
+        self.frames.pop()
+        self.vars = saved
+        self.tops.append(["fn", name, [[x, a]], ty, frees, ["seq"] + body])
+        f = Fn(name, [a], ty); f.level = 2
+        self.fns.append(f)
+        f.effectful = True
+        return f
+
+    def eff_call(self, ty):
+        f = self.effect_fun(ty)
+        self.use(2)
+        return ["call", f.name, list(f.args), f.res, [self.expr(t, 1, 0) for t in f.args]]
+
+    def pure_rhs(self, ty):
+        if ty in ("mi", "int") and self.chance(0.5):
+            return ["bin", self.r.choice(["add", "sub", "mul"]), self.lit(ty), self.lit(ty)]
+        return self.lit(ty)
+
+    def dead_local(self, ty, init):
+        name = self.fresh("d")
+        self.frame().prologue.append(["decl", name, ty, init])
+        return name
+
+    def deadstore_shape(self, kind=None):
+        """a list of statements for the body of the function under construction"""
+        ty = self.r.choice([t for t in ("mi", "int", "str", "bool") if self.on(t)] or ["mi"])
+        kind = kind or self.r.choice(["eff-pure", "pure-eff", "eff-eff", "three", "read-once", "read-once-eff",
+                                      "in-loop", "in-if", "unused-call", "eff-init", "eff-init-overwritten"])
+        E = lambda: self.eff_call(ty)
+        P = lambda: self.pure_rhs(ty)
+        self.use(2)
+        if kind == "unused-call":
+            return [E()] + ([E()] if self.chance(0.3) else [])
+        if kind == "eff-init":
+            self.dead_local(ty, E())
+            return []
+        if kind == "eff-init-overwritten":
+            d = self.dead_local(ty, E())
+            return [["assign", d, P() if self.chance(0.6) else E()]]
+        d = self.dead_local(ty, self.lit(ty))
+        A = lambda e: ["assign", d, e]
+        if kind == "eff-pure": return [A(E()), A(P())]
+        if kind == "pure-eff": return [A(P()), A(E())]
+        if kind == "eff-eff": return [A(E()), A(E())]
+        if kind == "three":
+            seq = self.r.choice([(E, P, E), (E, E, P), (P, E, P), (E, P, P), (E, E, E)])
+            return [A(f()) for f in seq]
+        if kind in ("read-once", "read-once-eff"):
+            rd = ["print", [["strlit", d + "="], ["var", d], ["nl"]]]
+            last = A(P()) if kind == "read-once" else A(E())
+            return [A(E()), rd, last] + ([A(P())] if self.chance(0.3) else [])
+        if kind == "in-loop":
+            x = self.fresh("x")
+            t = "mi" if self.on("mi") or not self.on("int") else "int"
+            body = ["seq", A(E())] + ([A(P())] if self.chance(0.5) else [])
+            return [["for", x, [t, 1], [t, self.r.randint(1, 3)], 1, body]]
+        if kind == "in-if":
+            c = self.simple_cond()
+            return [["if", c, ["seq", A(E())] + ([A(P())] if self.chance(0.4) else []),
+                     ["seq", A(P()), A(E())] if self.chance(0.6) else ["unit"]]]
+        return []
+
+    def def_deadstore_fun(self):
+        """a procedure made of dead-store shapes between prints, called from file scope"""
+        name = self.fresh("f")
+        res = self.r.choice(self.scalar_types() + ["unit"])
+        fr = Frame(1, ret=res); self.frames.append(fr)
+        base = len(self.vars)
+        items = []
+        for _ in range(self.r.randint(1, 3)):
+            items += self.deadstore_shape()
+            if self.chance(0.4): items.append(self.print_stmt(1))
+        items.append(self.print_stmt(1) if res == "unit" else self.expr(res, 1, 1))
+        self.frames.pop()
+        del self.vars[base:]
+        items = fr.prologue + items
+        self.tops.append(["fn", name, [], res, fr.frees, ["seq"] + items if len(items) > 1 else items[0]])
+        f = Fn(name, [], res); f.level = 2
+        self.fns.append(f)
+        call = ["call", name, [], res, []]
+        self.tops.append(["stmt", call if res == "unit" else ["print", [call, ["nl"]]]])
+
+    # ---- handlers that throw themselves, and finally (feature "exn")
+    def def_handler_throws(self):
+        if len(self.exns) < 1: return
+        exa = self.r.choice(self.exns)
+        exb = self.r.choice(self.exns)
+        inner = self.fresh("f"); outer = self.fresh("f")
+        x = self.fresh("x")
+        t0 = "mi" if self.on("mi") or not self.on("int") else "int"
+        def thr(ex):
+            en, pt = ex
+            return ["throw", en, [self.lit(pt)] if pt else []]
+        e1 = self.fresh("E")
+        mode = self.r.choice(["other", "other", "rethrow", "catchall-throws"])
+        handlers = []; ca = ["seq", ["print", [["strlit", inner + " other"], ["nl"]]]]
+        if mode == "other":
+            handlers = [[exa[0], ["seq", ["print", [["strlit", inner + " handler"], ["nl"]]], thr(exb)]]]
+        elif mode == "rethrow":
+            ca = ["none"]
+        else:
+            ca = ["seq", ["print", [["strlit", inner + " any"], ["nl"]]], thr(exb)]
+        fin = ["print", [["strlit", inner + " finally"], ["nl"]]] if self.chance(0.8) else ["none"]
+        body = ["seq", ["print", [["strlit", inner + " body "], ["var", x], ["nl"]]],
+                ["if", ["bin", "gt", ["var", x], [t0, 0]], thr(exa), ["unit"]],
+                ["print", [["strlit", inner + " no throw"], ["nl"]]]]
+        self.tops.append(["fn", inner, [[x, t0]], "unit", [], ["seq", ["try", body, e1, handlers, ca, fin],
+                                                                  ["print", [["strlit", inner + " end"], ["nl"]]]]])
+        fi = Fn(inner, [t0], "unit"); fi.level = 2; fi.throws = True
+        self.fns.append(fi)
+        e2 = self.fresh("E")
+        hs2 = []
+        for en, pt in self.r.sample(self.exns, self.r.randint(0, len(self.exns))):
+            hb = ["seq", ["print", [["strlit", outer + " caught " + en], ["nl"]]]]
+            if pt is not None and self.chance(0.6):
+                hb.insert(1, ["print", [["strlit", "value "], ["exnval", e2], ["nl"]]])
+            hs2.append([en, hb])
+        y = self.fresh("x")
+        fin2 = ["print", [["strlit", outer + " finally"], ["nl"]]] if self.chance(0.6) else ["none"]
+        self.tops.append(["fn", outer, [[y, t0]], "unit", [],
+                          ["seq", ["try", ["seq", ["call", inner, [t0], "unit", [["var", y]]], ["print", [["strlit", outer + " returned"], ["nl"]]]],
+                                   e2, hs2, ["seq", ["print", [["strlit", outer + " caught something"], ["nl"]]]], fin2],
+                                  ["print", [["strlit", outer + " end"], ["nl"]]]]])
+        fo = Fn(outer, [t0], "unit"); fo.level = 2
+        self.fns.append(fo)
+        for v in self.r.sample([0, 1, 1, 2, -1], 2):
+            self.tops.append(["stmt", ["call", outer, [t0], "unit", [[t0, v]]]])
+
     def final_prints(self):
         for v in self.vars:
             if v.depth == 0 and (v.ty in SCALARS or (isinstance(v.ty, list) and v.ty[0] in ("list", "arr") and v.ty[1] in SCALARS)):
@@ -1404,6 +1616,9 @@ class Gen:
         for _ in range(self.r.randint(0, s)): self.def_global()
         if self.on("exn") and self.exns and self.chance(0.6): self.def_fun(style="thrower")
         if self.chance(0.5): self.def_fun(style="rec")
+        if self.on("exn") and self.exns and self.chance(0.45): self.def_handler_throws()
+        if self.on("deadstore"):
+            for _ in range(self.r.choice([0, 1, 1, 2])): self.def_deadstore_fun()
         self.showcase_calls()
         for _ in range(self.r.randint(2, 3 + 2 * s)):
             if self.chance(0.5):
